@@ -13,6 +13,9 @@ entry.  Request of every op: {"op", "program": <export_ast.export_program>, "pac
  visit_op  -> {"r": {"texts": […], "state": {…}}} top-level declarations visited from a hand-set state
  state_op  -> {"r": {attr: value}}                attributes after history + program
  issam_op  -> {"r": [[class name, bool]…]}        (optional) the model's `tu.is_sam` on every top-level class
+Optional keys: `reset` (the `op` understands {"reset": true}: `_reset_state()` is called after the history; the
+plugin records `<lang>_after_reset`), `is_op_text` (text of the operator piece the model prints for `is` / `!is`,
+check_C12 leg K5), `sem_op` absent = no K4 leg.
 `state_attrs`: attribute names of the real translator object compared with the model's state
 (`_nodes_stack` is compared by length only: frames are summaries)."""
 
